@@ -2,6 +2,7 @@ CONSTANTS
   N = 2
   F = 0
   MaxLoops = 1
+  RemakeMissing = TRUE
   Force = FALSE
   MaxPages = 12
   Less <- IntLess
